@@ -100,7 +100,9 @@ func (v *memoryView) formatMemLine(ln memLine) string {
 	var sb strings.Builder
 
 	i := 0
-	for a := ln.addr; a < ln.addr+bytesPerLine; a++ {
+	for off := model.Addr(0); off < bytesPerLine; off++ {
+		// End address of the last line in the address space overflows.
+		a := ln.addr + off
 		if a != ln.addr {
 			sb.WriteByte(' ')
 		}
